@@ -197,6 +197,25 @@ def exec_workload(case):
                 period = gd.get("period")
                 if fl and fl["override_arrival_period"] > 0 and kind in ("fixed", "periodic"):
                     period = fl["override_arrival_period"]
+                # ---- the policy object carries the described parameters (with the override flags applied) ------
+                rp = jg.release_policy
+                try:
+                    if kind in ("poisson", "gamma"):
+                        exp_rate = fl["override_poisson_arrival_rate"] if fl and fl["override_poisson_arrival_rate"] > 0 else gd["rate"]
+                        if abs(rp.rate - exp_rate) > 1e-12:
+                            bad("policy_parameter", f"{gname}: rate {rp.rate} expected {exp_rate} (described {gd['rate']}, flags {fl})", ".rate")
+                    if kind == "gamma":
+                        exp_c = fl["override_gamma_coefficient"] if fl and fl["override_gamma_coefficient"] > 0 else gd["coefficient"]
+                        if abs(rp.coefficient - exp_c) > 1e-12:
+                            bad("policy_parameter", f"{gname}: coefficient {rp.coefficient} expected {exp_c} (described {gd['coefficient']}, flags {fl})", ".coefficient")
+                    if kind == "closed_loop" and rp.concurrency != gd["concurrency"]:
+                        bad("policy_parameter", f"{gname}: concurrency {rp.concurrency} expected {gd['concurrency']}", ".concurrency")
+                    if kind in ("fixed", "poisson", "gamma", "closed_loop") and rp.num_invocations != n:
+                        bad("policy_parameter", f"{gname}: num_invocations {rp.num_invocations} expected {n}", ".num_invocations")
+                    if kind in ("fixed", "periodic") and us(rp.period) != period:
+                        bad("policy_parameter", f"{gname}: period {rp.period} expected {period}", ".period")
+                except ValueError as e:
+                    bad("policy_parameter", f"{gname}: reading the parameters of a {kind} policy raised {e}", ".raises")
                 if kind == "fixed":
                     exp = [start + i * period for i in range(n)]
                     if rels != exp:
